@@ -104,6 +104,9 @@ ODATA_FUNCTION_RETURN: Dict[str, Optional[str]] = {
     "concat": "ARG", "substring": "ARG",
 }
 
+# for argument-derived return types: which argument positions have the type of the result
+ODATA_FUNCTION_RETURN_ARGS = {"concat": {0, 1}, "substring": {0}}
+
 # parameter sorts: S string, N number, T temporal, D duration, B boolean, G geo, C collection, X any
 ODATA_FUNCTION_PARAMS: Dict[str, List[str]] = {
     "concat": ["SC", "SC"], "contains": ["SC", "S"], "endswith": ["SC", "S"], "startswith": ["SC", "S"],
